@@ -1,6 +1,7 @@
 package main
 
 import (
+	"fmt"
 	"hash/fnv"
 	"math/rand"
 	"sort"
@@ -27,6 +28,8 @@ var detOps = map[string]detSpec{
 	"nN": {[]int{0}, false, true}, "ovEA": {[]int{0, 1}, false, false}, "ovSA": {[]int{0, 1}, false, false},
 	"tile2ext": {[]int{0}, false, true}, "tile2sp": {[]int{0}, false, true}, "qv2ext": {[]int{0}, false, true},
 	"e2qv": {[]int{0}, true, true}, "e2qa": {[]int{0}, true, true},
+	"uni": {[]int{0, 1}, false, true}, "uniq": {[]int{0}, false, true},
+	"inter": {nil, false, false}, "diff": {nil, false, false}, "incl": {nil, false, false}, "max": {nil, false, false}, "min": {nil, false, false},
 }
 
 func canonSet(spec detSpec, res string) (string, bool) {
@@ -63,16 +66,21 @@ func canonSet(spec detSpec, res string) (string, bool) {
 
 func callTracked(f func([]string) string, args []string) (string, string) {
 	tracked = tracked[:0]
+	trackedInts = trackedInts[:0]
 	trackSlices = true
 	res := guard(func() string { return f(args) })
 	trackSlices = false
 	for _, t := range tracked {
-		if len(t[0]) != len(t[1]) {
-			return res, "argument slice length changed"
-		}
 		for i := range t[0] {
 			if t[0][i] != t[1][i] {
-				return res, "argument slice modified at " + t[1][i]
+				return res, fmt.Sprintf("argument slice (or the memory behind it) modified at index %d: %q -> %q", i, t[1][i], t[0][i])
+			}
+		}
+	}
+	for _, t := range trackedInts {
+		for i := range t[0] {
+			if t[0][i] != t[1][i] {
+				return res, fmt.Sprintf("argument slice (or the memory behind it) modified at index %d: %d -> %d", i, t[1][i], t[0][i])
 			}
 		}
 	}
@@ -156,7 +164,7 @@ func detFamily(fam string) func(n int) {
 }
 
 func init() {
-	for _, fam := range []string{"chgExt", "chgSp", "mrgExt", "mrgSp", "nN", "ovEA", "ovSA", "tiles", "qv"} {
+	for _, fam := range []string{"chgExt", "chgSp", "mrgExt", "mrgSp", "nN", "ovEA", "ovSA", "tiles", "qv", "sets"} {
 		register("det_"+fam, detFamily(fam))
 	}
 }
